@@ -901,6 +901,10 @@ func (in *Interp) callBuiltin(fr *frame, fn *ssa.Builtin, args []Value) Value {
 		return nil
 	case "close":
 		ch := args[0].(*Chan)
+		if in.sc != nil && in.sc.enabled {
+			in.gClose(fr, ch)
+			return nil
+		}
 		if ch == nil {
 			in.throw(fr, "close of nil channel")
 		}
